@@ -621,7 +621,7 @@ def analyse_stuck(run):
     """See _analyse_stuck; a SelectorThread that is still inside __init__ is simply not analysable yet."""
     try:
         return _analyse_stuck(run)
-    except AttributeError:
+    except (AttributeError, RuntimeError):      # half-built object / container resized while being copied
         return None
 
 
